@@ -57,6 +57,14 @@ CHECKS = [
              "for ALL inputs and directions any difference between optimised and original operator in value, Jacobian and "
              "adjoint Jacobian; domain and target must agree; any exception of the optimiser is a violation.",
      "design_ref": "DESIGN.md 4/C05"},
+    {"property_id": "C10", "engine": "A", "category": "other", "technique": TECH_A + "; obligations that contain rounded float constants (1/bin volume) are compared coefficient-wise with relative slack 1e-9",
+     "note": NOTE_A + " Bin membership is taken from the real PowerSpace.pindex (geometry itself: C08).",
+     "text": "Bounded symbolic verification on concrete harmonic RG partners (1-D, 2-D; natural, custom and linear binnings; "
+             "single space and first/middle/last sub-space of product domains): for ALL spectra and fields z3 / the rewriter "
+             "refute: distributed value != value of the mode's bin, adjoint != sum over the bin, power_analyze != bin average "
+             "of |f|^2 (real, complex, with phase information, two sub-spaces at once), power_analyze(f) != P whenever |f|^2 "
+             "is the distributed P, create_power_operator (Field and callable spectra) != diagonal of the distributed spectrum.",
+     "design_ref": "DESIGN.md 4/C10"},
 ]
 
 ALL = [f"C{i:02d}" for i in range(1, 37)]
